@@ -36,6 +36,23 @@ NON_ASCII = [
 ]
 
 
+# the real builtin bodies on a populated in-memory store: unknown bucket -> function error
+REAL = [
+    ('RETURN = query_bucket("nosuch");', "QueryFunction"),
+    ('RETURN = query_bucket_eventcount("nosuch");', "QueryFunction"),
+    ('RETURN = find_bucket("nosuch");', "QueryFunction"),
+    ('RETURN = find_bucket("win", "otherhost");', "QueryFunction"),
+    ('RETURN = query_bucket(find_bucket("nosuch"));', "QueryFunction"),
+    ('x = "nosuch"; RETURN = [1, {"a": query_bucket(x)}];', "QueryFunction"),
+    ('RETURN = query_bucket(find_bucket("wi"));', "value"),
+    ('RETURN = query_bucket_eventcount("afk");', "value"),
+    ('RETURN = query_bucket(1);', "QueryFunction"),
+    ('RETURN = query_bucket();', "QueryInterpret"),
+    ('RETURN = query_bucket("win", "afk");', "QueryInterpret"),
+    ('RETURN = query_bucket(nosuch);', "QueryInterpret"),
+]
+
+
 class C17(Prop):
     ID = "C17"
     MODULE = "AwProofs.Props.C17"
@@ -97,6 +114,8 @@ class C17(Prop):
                 out.append(("boundary-parse", {"k": "parse", "text": t.strip()}))
         for t in NON_ASCII:
             out.append(("nonascii", {"k": "run", "text": t, "ret": {}}))
+        for t, want in REAL:
+            out.append(("real-builtins", {"k": "real", "text": t, "want": want}))
         # arity / type grid
         kinds4 = "LSID"
         for name in sorted(reg):
@@ -179,6 +198,9 @@ class C17(Prop):
             return Q.run_text(case["text"], case.get("ret"))
         if k == "parse":
             return Q.parse_text(case["text"])
+        if k == "real":
+            o = Q.run_text_real(case["text"])
+            return o if o[0] == "err" else ["value"]
         if k == "registry":
             from ..registry_dump import describe
 
@@ -190,7 +212,7 @@ class C17(Prop):
         k = case["k"]
         if k == "registry":
             return ["q registry"]
-        if not Q.is_ascii(case["text"]):
+        if k == "real" or not Q.is_ascii(case["text"]):
             return []
         if k == "run":
             return [Q.line_run(case["text"], case.get("ret"))]
@@ -223,6 +245,11 @@ class C17(Prop):
                 return f"{out[1]} escaped instead of a query error"
             if k == "parse" and out[1] != "QueryParse":
                 return f"parse() raised {out[1]}"
+        if k == "real":
+            got = out[1] if out[0] == "err" else "value"
+            if got != case["want"]:
+                return f"real builtins: {got}, expected {case['want']}"
+            return None
         elif isinstance(out, list) and out and out[0] == "?":
             return f"unexpected value {out}"
         if k == "run":
